@@ -70,6 +70,7 @@ class Ctx:
     FEAS_TIMEOUT_MS = int(__import__('os').environ.get('PYVC_FEAS_MS', '200'))
 
     USE_CVC5 = True
+    FEAS_INT_TIMEOUT_MS = int(__import__('os').environ.get('PYVC_FEAS_INT_MS', '2000'))
     CVC5_FEAS_MS = int(__import__('os').environ.get('PYVC_CVC5_FEAS_MS', '80'))
 
     def __init__(self, decisions=()):
@@ -183,7 +184,7 @@ class Ctx:
                 self.refuted.add(tid)
             return r2 != 'unsat'
         s = z3.Solver()
-        s.set('timeout', self.FEAS_TIMEOUT_MS)
+        s.set('timeout', self.FEAS_INT_TIMEOUT_MS)      # arithmetic / boolean path conditions: z3 answers in milliseconds unless the machine is loaded
         for c in cs:
             s.add(c)
         r = s.check()
